@@ -100,6 +100,11 @@ func (x *Exec) eval(e ast.Expr, env *Env) Term {
 		case token.AND:
 			v := x.eval(e.X, env)
 			v.GoT = info.TypeOf(e)
+			if !x.termMode {
+				pn := "isnilptr_" + sanitize(string(v.Sort))
+				x.W.DeclareFun(pn, []Sort{v.Sort}, SBool)
+				x.W.AddFact(env.pc, Not(T("("+pn+" "+v.S+")", SBool)))
+			}
 			return v
 		case token.XOR:
 			v := x.eval(e.X, env)
